@@ -730,6 +730,8 @@ def patch_lines(
     # Read (and thereby check) the whole script before changing anything
     patches = list(patches)
     for (first, last, args) in patches:
+        if last > len(lines):
+            raise ValueError("patch addresses a line beyond the end: %d" % last)
         lines[first:last] = args
 
 
